@@ -16,9 +16,18 @@ RULE = ('forward values of every nn op over the C02 generators (activations, sof
         'configurations; loss modules under reduction mean / sum / none (value and shape); geometry layers constructed with int '
         'and tuple arguments, default stride, padding same / valid / int / tuple, and run on a probe input: normalised attributes '
         'and output shape must equal the model; the failing-input search compares with torch.nn.functional. '
+        'SPECIAL VALUES: -inf / +inf / NaN / dtype extremes / signed zeros / subnormals written over border bands (the cells the padded '
+        'windows overlap), whole channels or the whole input of every pooling op (max, avg; 1-d, 2-d), unfold and the conv inputs, '
+        'float64 and float32, with padding > 0 most of the time. RE-CONFIGURED OBJECTS: one layer / loss / activation object per '
+        'program whose public attributes (reduction; kernel_size, stride, padding, dilation, pad_value, output_size; negative_slope; '
+        'dim; start_dim, end_dim) are assigned after construction and which is called again after every assignment: each call must '
+        'equal the op with the attribute values of that moment. '
         'Non-trivial: accepted configuration with more than one output element.')
 EXHAUSTIVE = {'quick': False, 'thorough': False}
-ASSUMPTIONS = ['float64 values (rel 1e-9); torch is used only as the oracle of the failing-input search']
+ASSUMPTIONS = ['float64 values (rel 1e-9; float32 leaves rel 1e-6); torch is used only as the oracle of the failing-input search',
+               'max pooling over a window that holds a NaN: the model selects by `<` and does not propagate NaN, NumPy / PyTorch do; for these '
+               'cases (only) the implementation is compared with a direct NumPy reading of the definition (window maximum, NaN if any '
+               'real cell is NaN, padding never taking part) instead of the model value']
 TRUSTED_BASE = ['harness/tprog.py, harness/gen_ops.py']
 
 
@@ -86,6 +95,165 @@ def layer_case(rng):
             'lines': [f"layer pool1d {k} {'-' if s is None else s} {p} {d} {Ln}"], 'malformed': False}
 
 
+def paint(rng, a, v, pads):
+    """write the special value over a region of the (N, C, *spatial) array: border bands along every spatial axis (at least as wide
+    as the padding, so that some windows hold padding and special cells only), one whole channel, or everything"""
+    how = rng.random()
+    sp = a.ndim - 2
+    if how < .12:
+        a[...] = v; return 'all'
+    if how < .22:
+        a[rng.randrange(a.shape[0]), rng.randrange(a.shape[1])] = v; return 'channel'
+    if how < .3:
+        for _ in range(rng.randint(1, 3)):
+            a[tuple(rng.randrange(n) for n in a.shape)] = v
+        return 'cells'
+    sel0 = slice(None) if rng.chance(.6) else rng.randrange(a.shape[0])
+    for ax in range(sp):
+        n = a.shape[2 + ax]
+        w = min(n, max(1, pads[ax]) + rng.randint(0, 2))
+        for side in rng.sample(['lo', 'hi'], rng.randint(1, 2)) if rng.chance(.8) else []:
+            idx = [sel0, slice(None)] + [slice(None)] * sp
+            idx[2 + ax] = slice(0, w) if side == 'lo' else slice(n - w, n)
+            a[tuple(idx)] = v
+    return 'bands'
+
+
+def special_case(rng, op):
+    """an accepted configuration of a windowed op (padding > 0 three times out of four) whose input holds a special value in the
+    cells that the padded windows overlap"""
+    while True:
+        leaves, args = gen_ops.gen_nn(rng, op, False)
+        sh = leaves[0][0]
+        if int(np.prod(sh)) > 400: continue
+        a = [str(x) for x in args]
+        pads = {'max_pool1d': lambda: [int(a[2])], 'avg_pool1d': lambda: [int(a[2])], 'conv1d': lambda: [int(a[2])],
+                'max_pool2d': lambda: common.parse_ints(a[2]), 'avg_pool2d': lambda: common.parse_ints(a[2]), 'conv2d': lambda: common.parse_ints(a[2]),
+                'unfold': lambda: common.parse_ints(a[3])}[op]()
+        if any(pads) or rng.chance(.25): break
+    dt = rng.pick(['f64', 'f32'])
+    x = np.array(leaves[0][1], dtype=np.float64).reshape(sh)
+    if dt == 'f32': x = x.astype(np.float32).astype(np.float64)
+    fi = np.finfo(np.float32 if dt == 'f32' else np.float64)
+    # classes: -inf (masked positions of a sequence / feature map), NaN, +inf, the dtype's extremes, signed zeros / smallest magnitudes;
+    # the extremes only where the op selects (max pooling, unfold): a sum of them overflows in float32 and not in the binary64 model
+    classes = [[float('-inf')]] * 3 + [[float('nan')]] * 2 + [[float('inf')]] + [[-0.0, 0.0, float(fi.tiny), 5e-324 if dt == 'f64' else float(fi.tiny)]]
+    if op.startswith('max') or op == 'unfold': classes += [[float(fi.min), float(fi.max)]] * 2
+    marks = []
+    for _ in range(rng.randint(1, 2)):
+        v = rng.pick(rng.pick(classes))
+        marks.append((repr(v), paint(rng, x, v, pads)))
+    lv = [(sh, [float(q) for q in x.ravel()], False, dt)]
+    for lf in leaves[1:]:       # conv weight / bias: finite, exactly representable in float32 as well
+        lv.append((lf[0], [float(np.float32(q)) for q in lf[1]] if dt == 'f32' else list(lf[1]), False, dt))
+    c = {'kind': 'op', 'op': op, 'leaves': lv, 'args': args, 'malformed': False, 'dt': dt, 'special': marks}
+    c['nanmax'] = op.startswith('max') and bool(np.isnan(x).any())
+    c['lines'] = gen_ops.program(c, rng) + [f't val {len(lv)}']
+    return c
+
+
+RECONF_OPS = ['max_pool1d', 'avg_pool1d', 'max_pool2d', 'avg_pool2d', 'conv1d', 'conv2d', 'unfold', 'fold', 'leaky_relu', 'softmax', 'log_softmax', 'flatten', 'loss']
+
+
+def _fits(L, k, s, p, d):
+    return L + 2 * p >= d * (k - 1) + 1
+
+
+def reconf_case(rng, op):
+    """ONE object, 2-4 configurations: the first is given to the constructor (or assigned right after a default construction), the
+    others are assigned to the public attributes between calls. Lines: the op with each configuration in turn, value after each."""
+    n = rng.randint(2, 4)
+    cfgs, leaves = [], None
+    if op == 'loss':
+        name = rng.pick(['mse_loss', 'nll_loss', 'binary_cross_entropy', 'binary_cross_entropy_with_logits', 'cross_entropy'])
+        leaves, args = gen_ops.gen_nn(rng, name, False)
+        reds = [rng.pick(['mean', 'sum', 'none'])]
+        while len(reds) < n:
+            reds.append(rng.pick([r for r in ['mean', 'sum', 'none'] if r != reds[-1]] if rng.chance(.85) else ['mean', 'sum', 'none']))
+        lines = [gen_dag.leaf_line(lf[0], lf[1], False, lf[3] if len(lf) > 3 else 'f64') for lf in leaves]
+        tid = len(leaves) - 1
+        for red in reds:
+            tid += 1 if red == 'none' else 2
+            lines += [' '.join(['t loss', name, red, '0', '1'] + [str(a) for a in args]), f't val {tid}']
+        return {'kind': 'reconf', 'op': op, 'loss': name, 'leaves': [tuple([lf[0], lf[1], False] + list(lf[3:])) for lf in leaves], 'args': args, 'cfgs': reds, 'malformed': False, 'lines': lines}
+    pr = lambda lo, hi: (rng.randint(lo, hi), rng.randint(lo, hi)) if rng.chance(.6) else (rng.randint(lo, hi),) * 2
+    if op in ('max_pool1d', 'avg_pool1d', 'conv1d'):
+        L = rng.randint(4, 9)
+        kfix = rng.randint(1, 3)
+        while len(cfgs) < n:
+            k = kfix if op == 'conv1d' else rng.randint(1, 4)
+            s, d = rng.randint(1, 3), rng.randint(1, 2); p = rng.randint(0, k // 2 if op != 'conv1d' else 2)
+            if _fits(L, k, s, p, d): cfgs.append([k, s, p, d] if op != 'conv1d' else [None, s, p, d])
+        nb, ch = rng.randint(1, 2), rng.randint(1, 2)
+        if op == 'conv1d':
+            co, bias = rng.randint(1, 2), rng.chance(.5)
+            leaves = [((nb, ch, L), gen_ops.vals(rng, (nb, ch, L)), False), ((co, ch, kfix), gen_ops.vals(rng, (co, ch, kfix)), False)] + ([((co,), gen_ops.vals(rng, (co,)), False)] if bias else [])
+            for c_ in cfgs: c_[0] = int(bias)
+        else:
+            leaves = [((nb, ch, L), gen_ops.vals(rng, (nb, ch, L), 'distinct' if op[0] == 'm' else 'any'), False)]
+    elif op in ('max_pool2d', 'avg_pool2d', 'conv2d', 'unfold'):
+        H, W = rng.randint(4, 7), rng.randint(4, 7)
+        kfix = pr(1, 3)
+        while len(cfgs) < n:
+            k = kfix if op == 'conv2d' else pr(1, 3)
+            s, d = pr(1, 3), pr(1, 2)
+            p = (rng.randint(0, k[0] // 2), rng.randint(0, k[1] // 2)) if op != 'conv2d' else pr(0, 2)
+            if op != 'conv2d' and rng.chance(.4): p = (min(p), min(p))
+            if _fits(H, k[0], s[0], p[0], d[0]) and _fits(W, k[1], s[1], p[1], d[1]):
+                P = show_ints
+                cfgs.append([P(k), P(s), P(p), P(d)] if op.endswith('pool2d') else [None, P(s), P(p), P(d)] if op == 'conv2d' else [P(k), P(d), P(s), P(p), fbits(rng.pick([0.0, 0.0, 1.5, -2.0]))])
+        nb, ch = rng.randint(1, 2), rng.randint(1, 2)
+        if op == 'conv2d':
+            co, bias = rng.randint(1, 2), rng.chance(.5)
+            leaves = [((nb, ch, H, W), gen_ops.vals(rng, (nb, ch, H, W)), False), ((co, ch) + kfix, gen_ops.vals(rng, (co, ch) + kfix), False)] + ([((co,), gen_ops.vals(rng, (co,)), False)] if bias else [])
+            for c_ in cfgs: c_[0] = int(bias)
+        else:
+            leaves = [((nb, ch, H, W), gen_ops.vals(rng, (nb, ch, H, W), 'distinct' if op[0] == 'm' else 'any'), False)]
+    elif op == 'fold':
+        # the column count is fixed by the operand; configurations that keep it: padding p -> p + 1 with output_size O -> O - 2 per axis, and
+        # the transposed geometry when the block counts agree; plus configurations the operand does not fit (rejected)
+        while True:
+            lv, args = gen_ops.gen_nn(rng, 'fold', False)
+            O, k, d, s_, p = [common.parse_ints(str(a)) for a in args]
+            if min(O) >= 3: break
+        leaves = [(lv[0][0], lv[0][1], False)]
+        cfgs = [[str(a) for a in args]]
+        P = show_ints
+        while len(cfgs) < n:
+            r = rng.random()
+            if r < .6:
+                ax = [rng.chance(.6), rng.chance(.6)]
+                O2 = [o - 2 * int(b) for o, b in zip(O, ax)]; p2 = [q + int(b) for q, b in zip(p, ax)]
+                if min(O2) < 1: continue
+                cfgs.append([P(O2), P(k), P(d), P(s_), P(p2)])
+            elif r < .8:
+                cfgs.append(cfgs[0])
+            else:
+                cfgs.append([P(O), P(k), P(d), P([v + 1 for v in s_]), P(p)])
+    elif op == 'leaky_relu':
+        sh = gen_ops.rshape(rng, 1, 3); leaves = [(sh, gen_ops.nonkink(rng, sh), False)]
+        slopes = rng.sample([0.01, 0.2, 0.0, 1.5, -0.5, 1.0], n)
+        cfgs = [[fbits(v)] for v in slopes]
+    elif op in ('softmax', 'log_softmax'):
+        sh = gen_ops.rshape(rng, 2, 3); leaves = [(sh, gen_ops.vals(rng, sh), False)]
+        dims = list(range(-len(sh), len(sh)))
+        cfgs = [[rng.pick(dims)]]
+        while len(cfgs) < n: cfgs.append([rng.pick([v for v in dims if v % len(sh) != cfgs[-1][0] % len(sh)])])
+    elif op == 'flatten':
+        sh = gen_ops.rshape(rng, 3, 4, 3); leaves = [(sh, gen_ops.vals(rng, sh), False)]
+        while len(cfgs) < n:
+            s0 = rng.randrange(0, len(sh)); e0 = rng.randrange(s0, len(sh))
+            cfgs.append([s0 if rng.chance(.5) else s0 - len(sh), e0 if rng.chance(.5) else e0 - len(sh)])
+    lines = [gen_dag.leaf_line(lf[0], lf[1], False, 'f64') for lf in leaves]
+    tid = len(leaves) - 1
+    if op == 'fold':       # configurations the operand does not fit (rejected: no tensor is created) go last
+        cfgs = [c_ for c_ in cfgs if c_[3] == cfgs[0][3]] + [c_ for c_ in cfgs if c_[3] != cfgs[0][3]]
+    for cf in cfgs:
+        tid += 1
+        lines += [' '.join(['t op', op, show_ints(range(len(leaves)))] + [str(a) for a in cf]), f't val {tid}']
+    return {'kind': 'reconf', 'op': op, 'leaves': leaves, 'cfgs': cfgs, 'malformed': False, 'lines': lines}
+
+
 def cases(rng, tier):
     out = []
     gen_ops.WIDE_LEVELS = True
@@ -97,6 +265,12 @@ def cases(rng, tier):
         out.append(loss_case(rng))
     for _ in range(120 if tier == 'quick' else 3000):
         out.append(layer_case(rng))
+    for op in ('max_pool1d', 'max_pool2d', 'avg_pool1d', 'avg_pool2d', 'conv1d', 'conv2d', 'unfold'):
+        for _ in range((20 if op.startswith('max') else 8) if tier == 'quick' else 400):
+            out.append(special_case(rng, op))
+    for op in RECONF_OPS:
+        for _ in range((12 if op == 'loss' else 8) if tier == 'quick' else 200):
+            out.append(reconf_case(rng, op))
     for c in out:
         c['desc'] = ' ; '.join(c['lines'])[:600]
     return out
@@ -135,20 +309,137 @@ def _layer_impl(c):
     return head + ' out=' + ('rejected' if isinstance(r, str) else f'{r.shape[2]}')
 
 
+class ReconfImpl(tprog.Impl):
+    """every nn op / loss of the program goes through ONE object per class (and per weight tensor), built at the first call and
+    RE-CONFIGURED — its public attributes assigned, as `pool.stride = 2`, `crit.reduction = 'none'` — before every later call;
+    every third object is even built with default arguments and configured by assignment before its first call"""
+    def __init__(self):
+        super().__init__()
+        self.objs, self.last, self.nrc, self.trail = {}, {}, 0, []
+
+    def _configured(self, key, make, default, vals):
+        self.nrc += 1
+        if key not in self.objs:
+            if default is not None and self.nrc % 3 == 0:
+                self.objs[key], self.last[key] = make(**default), dict(default)
+                self.trail.append(f'{key[0]}({", ".join(f"{k}={v!r}" for k, v in default.items())})')
+            else:
+                self.objs[key], self.last[key] = make(**vals), dict(vals)
+                self.trail.append(f'{key[0]}({", ".join(f"{k}={v!r}" for k, v in vals.items())})')
+        obj = self.objs[key]
+        for k, v in vals.items():
+            if self.last[key].get(k, '?') != v or type(self.last[key].get(k)) is not type(v):
+                setattr(obj, k, v); self.last[key][k] = v
+                self.trail.append(f'.{k} = {v!r}')
+        return obj
+
+    def call_op(self, name, ins, args):
+        if name not in RECONF_OPS:
+            return super().call_op(name, ins, args)
+        nn, x = self.nn, [self.ts[i] for i in ins]
+        args = [str(a) for a in args]
+        def pair(a):
+            v = tuple(common.parse_ints(a))
+            return v[0] if len(v) == 2 and v[0] == v[1] and self.nrc % 2 else v       # documented: int or tuple
+        if name in ('max_pool1d', 'avg_pool1d'):
+            cls = nn.MaxPool1d if name[0] == 'm' else nn.AvgPool1d
+            vals = dict(kernel_size=int(args[0]), stride=int(args[1]), padding=int(args[2]), dilation=int(args[3]))
+            return self._configured((cls.__name__,), cls, dict(kernel_size=2), vals)(x[0])
+        if name in ('max_pool2d', 'avg_pool2d'):
+            cls = nn.MaxPool2d if name[0] == 'm' else nn.AvgPool2d
+            vals = dict(kernel_size=pair(args[0]), stride=pair(args[1]), padding=pair(args[2]), dilation=pair(args[3]))
+            return self._configured((cls.__name__,), cls, dict(kernel_size=2), vals)(x[0])
+        if name in ('conv1d', 'conv2d'):
+            w = x[1]; b = x[2] if len(x) > 2 else None
+            def make(**kw):
+                m = (nn.Conv1d(w.shape[1], w.shape[0], w.shape[2], bias=b is not None, **kw) if name == 'conv1d' else
+                     nn.Conv2d(w.shape[1], w.shape[0], (w.shape[2], w.shape[3]), bias=b is not None, **kw))
+                object.__setattr__(m, 'weight', w); object.__setattr__(m, 'bias', b)
+                return m
+            cv = int if name == 'conv1d' else pair
+            vals = dict(stride=cv(args[1]), padding=cv(args[2]), dilation=cv(args[3]))
+            return self._configured(('Conv1d' if name == 'conv1d' else 'Conv2d', id(w)), make, {}, vals)(x[0])
+        if name == 'unfold':
+            vals = dict(kernel_size=pair(args[0]), dilation=pair(args[1]), stride=pair(args[2]), padding=pair(args[3]), pad_value=common.bitsf(args[4]))
+            return self._configured(('Unfold',), nn.Unfold, dict(kernel_size=2), vals)(x[0])
+        if name == 'fold':
+            vals = dict(output_size=tuple(common.parse_ints(args[0])), kernel_size=pair(args[1]), dilation=pair(args[2]), stride=pair(args[3]), padding=pair(args[4]))
+            return self._configured(('Fold',), nn.Fold, dict(output_size=(4, 4), kernel_size=2), vals)(x[0])
+        if name == 'leaky_relu':
+            return self._configured(('LeakyReLU',), nn.LeakyReLU, {}, dict(negative_slope=common.bitsf(args[0])))(x[0])
+        if name in ('softmax', 'log_softmax'):
+            cls = nn.Softmax if name == 'softmax' else nn.LogSoftmax
+            return self._configured((cls.__name__,), cls, dict(dim=0), dict(dim=int(args[0])))(x[0])
+        if name == 'flatten':
+            return self._configured(('Flatten',), nn.Flatten, {}, dict(start_dim=int(args[0]), end_dim=int(args[1])))(x[0])
+        raise KeyError(name)
+
+    def run(self, line):
+        t = line.split(' ')
+        if t[1] != 'loss':
+            return super().run(line)
+        nn = self.nn
+        cls = {'mse_loss': nn.MSELoss, 'nll_loss': nn.NLLLoss, 'binary_cross_entropy': nn.BCELoss,
+               'binary_cross_entropy_with_logits': nn.BCEWithLogitsLoss, 'cross_entropy': nn.CrossEntropyLoss}[t[2]]
+        r = self._configured((cls.__name__,), cls, {}, dict(reduction=t[3]))(self.ts[int(t[4])], self.ts[int(t[5])])
+        if t[3] != 'none': self.ts.append(None)      # the unreduced loss tensor
+        self.ts.append(r)
+        return f't{len(self.ts) - 1}'
+
+
+def _run(c, keep=None):
+    if c['kind'] != 'reconf':
+        return tprog.run_program(c['lines'])
+    im = ReconfImpl()
+    try:
+        return [im.exec(l) for l in c['lines']]
+    finally:
+        if keep is not None: keep.append(im.trail)
+        im.close()
+
+
 def impl(c):
     if c['kind'] == 'layer':
         return [outcome(lambda: _layer_impl(c))]
-    io = tprog.run_program(c['lines'])
-    return io
+    return _run(c)
+
+
+def _pool_geom(c):
+    a = [str(x) for x in c['args']]
+    return [common.parse_ints(v) for v in a[:4]]
+
+
+def maxpool_ref(x, k, s, p, d):
+    """max pooling read off its definition: per window the maximum over the cells that lie inside the input (padding takes no part:
+    a window without any real cell gives -inf), NaN if one of them is NaN"""
+    sp = x.shape[2:]
+    lo = [(n + 2 * p_ - d_ * (k_ - 1) - 1) // s_ + 1 for n, k_, s_, p_, d_ in zip(sp, k, s, p, d)]
+    out = np.full(x.shape[:2] + tuple(lo), -np.inf)
+    import itertools
+    for t in itertools.product(*[range(n) for n in lo]):
+        cells = []
+        for a in itertools.product(*[range(k_) for k_ in k]):
+            q = [t_ * s_ - p_ + a_ * d_ for t_, s_, p_, a_, d_ in zip(t, s, p, a, d)]
+            if all(0 <= q_ < n for q_, n in zip(q, sp)):
+                cells.append(x[(slice(None), slice(None)) + tuple(q)])
+        if cells:
+            st = np.stack(cells, -1)
+            out[(slice(None), slice(None)) + t] = np.where(np.isnan(st).any(-1), np.nan, np.max(np.where(np.isnan(st), -np.inf, st), -1))
+    return out
 
 
 def compare(c, mo, io):
     if c['kind'] == 'layer':
         return [(c['lines'][0], m, i) for m, i in zip(mo, io) if m != i]
-    if c['kind'] == 'loss':
-        # the upstream gradient shape of the reduced loss is 0-d: the line was written with `_`
-        pass
-    return tprog.diff_program(c['lines'], mo, io)
+    rtol = 1e-6 if c.get('dt') == 'f32' else 1e-9
+    if c.get('nanmax'):
+        # the value line is judged against the definition (see ASSUMPTIONS); everything else against the model
+        nl = len(c['leaves'])
+        d = tprog.diff_program(c['lines'][:nl + 1], mo[:nl + 1], io[:nl + 1], rtol)
+        if d or io[nl] == 'rejected': return d
+        ref = maxpool_ref(np.array(c['leaves'][0][1], dtype=np.float64).reshape(c['leaves'][0][0]), *_pool_geom(c))
+        return [] if tprog.close_arr(tprog.show_arr(ref), io[nl + 1], rtol) else [(c['lines'][nl + 1], 'definition: ' + tprog.show_arr(ref)[:280], str(io[nl + 1])[:300])]
+    return tprog.diff_program(c['lines'], mo, io, rtol)
 
 
 def nontrivial(c):
@@ -157,9 +448,15 @@ def nontrivial(c):
 
 def distribution(cases):
     d = {}
+    def inc(k, n=1): d[k] = d.get(k, 0) + n
     for c in cases:
-        k = c['kind'] + ':' + str(c.get('op', c.get('layer')))
-        d[k] = d.get(k, 0) + 1
+        inc(c['kind'] + ':' + str(c.get('op', c.get('layer'))))
+        for v, where in c.get('special', []):
+            inc(f"special value {v} over {where} ({c['dt']})")
+            inc(f"special values in {c['op']}")
+        if c.get('nanmax'): inc('max pooling with NaN cells (judged against the definition)')
+        if c['kind'] == 'reconf':
+            inc('re-configured object: calls after an attribute assignment', len(c['cfgs']) - 1)
     return d
 
 
@@ -167,9 +464,10 @@ def distribution(cases):
 def _torch_ref(c):
     import torch
     import torch.nn.functional as F
-    t = [torch.tensor(np.array(lf[1], dtype=np.float64).reshape(lf[0])) for lf in c['leaves']]
+    t = [torch.tensor(np.array(lf[1], dtype=np.float64).reshape(lf[0]), dtype=torch.float32 if len(lf) > 3 and lf[3] == 'f32' else torch.float64) for lf in c['leaves']]
     op, a = c['op'], [str(x) for x in c['args']]
     pair = lambda s: tuple(common.parse_ints(s))
+    if op == 'flatten': return torch.flatten(t[0], int(a[0]), int(a[1]))
     if op == 'relu': return F.relu(t[0])
     if op == 'leaky_relu': return F.leaky_relu(t[0], common.bitsf(a[0]))
     if op == 'selu': return F.selu(t[0])
@@ -244,9 +542,11 @@ def oracle(c):
         return None
     if c['kind'] == 'loss':
         return None
+    if c['kind'] == 'reconf':
+        return _reconf_oracle(c)
     io = tprog.run_program(c['lines'])
     nl = len(c['leaves'])
-    cc = {k: v for k, v in c.items() if k in ('kind', 'op', 'leaves', 'args', 'malformed')}
+    cc = {k: v for k, v in c.items() if k in ('kind', 'op', 'leaves', 'args', 'malformed', 'lines', 'dt', 'special')}
     key = {'op': c['op']}
     try:
         ref = _torch_ref(c)
@@ -263,8 +563,41 @@ def oracle(c):
     r = ref.numpy()
     if c['op'] == 'binary_cross_entropy':
         return None if np.allclose(got, r, rtol=1e-6, atol=1e-8) else {'key': dict(key, cls='value'), 'case': cc, 'what': 'bce differs from torch beyond its epsilon guard'}
-    if got.shape != r.shape or not np.allclose(got, r, rtol=1e-8, atol=1e-10, equal_nan=True):
+    f32 = c.get('dt') == 'f32'
+    if got.shape != r.shape or not np.allclose(got, r, rtol=1e-5 if f32 else 1e-8, atol=1e-6 if f32 else 1e-10, equal_nan=True):
         return {'key': dict(key, cls='value'), 'case': cc, 'what': f"{c['op']}{c['args']}: {got.tolist()} (shape {got.shape}) vs torch {r.tolist()} (shape {r.shape})"}
+    return None
+
+
+def _reconf_oracle(c):
+    """every call of the re-configured object against torch on the configuration of that moment"""
+    trail = []
+    io = _run(c, trail)
+    nl = len(c['leaves'])
+    cc = {k: v for k, v in c.items() if k in ('kind', 'op', 'loss', 'leaves', 'args', 'cfgs', 'malformed', 'lines')}
+    for j, cf in enumerate(c['cfgs']):
+        if c['op'] == 'loss':
+            sub = {'op': c['loss'], 'leaves': c['leaves'], 'args': c['args']}
+        else:
+            sub = {'op': c['op'], 'leaves': c['leaves'], 'args': cf}
+        try:
+            ref = _torch_ref(sub)
+        except Exception:
+            ref = None
+        if ref is not None and c['op'] == 'loss':
+            ref = ref.mean() if cf == 'mean' else ref.sum() if cf == 'sum' else ref
+        li = nl + 2 * j
+        hist = f"object history: {' ; '.join(trail[0])}" if trail else ''
+        if io[li] == 'rejected':
+            if ref is not None and ref.numel() > 0:
+                return {'key': {'op': c['op'], 'cls': 'reconfigured-object-rejects'}, 'case': cc, 'what': f"call {j} ({c['lines'][li]}) raised on the re-configured object; torch accepts the configuration. {hist}"}
+            break
+        if ref is None: continue
+        got, r = tprog.parse_arr(io[li + 1]), ref.numpy()
+        loose = c.get('loss') == 'binary_cross_entropy'
+        if got.shape != r.shape or not np.allclose(got, r, rtol=1e-6 if loose else 1e-8, atol=1e-8 if loose else 1e-10, equal_nan=True):
+            return {'key': {'op': c['op'], 'cls': 'reconfigured-object'}, 'case': cc,
+                    'what': f"call {j} ({c['lines'][li]}) on the re-configured object returns {got.tolist()} (shape {got.shape}); the op with the attribute values of that moment (torch) gives {r.tolist()} (shape {r.shape}). {hist}"}
     return None
 
 
